@@ -447,23 +447,25 @@ Proof.
   - inversion Hd as [|? ? Hc Hl]; subst. rewrite Hc. intros H.
     unfold is_digit in Hc. apply IH in H; [lia | lia | exact Hl].
 Qed.
-Lemma parse_u64_fast_digits l : forall a n, 0 <= a -> Forall (fun c => is_digit c = true) l ->
-  digits_val l a = Some n -> n < two64 -> parse_u64_fast l a = Some n.
+Lemma parse_u64_go_digits l : forall a n, 0 <= a -> Forall (fun c => is_digit c = true) l ->
+  digits_val l a = Some n -> n < two64 -> parse_u64_go l a = Some n.
 Proof.
-  induction l as [|c l IH]; intros a n Ha Hd; cbn [digits_val parse_u64_fast].
+  induction l as [|c l IH]; intros a n Ha Hd; cbn [digits_val parse_u64_go].
   - intros H _; exact H.
   - inversion Hd as [|? ? Hc Hl]; subst. rewrite Hc. intros H Hn.
     assert (Hc' := Hc). unfold is_digit in Hc'.
     assert (Hge : 0 <= a * 10 + (c - 48)) by lia.
     pose proof (digits_val_ge l _ _ Hge Hl H).
-    rewrite Z.mod_small by lia. apply IH; auto; lia.
+    cbv zeta. replace (a * 10 + (c - 48) <? two64) with true by lia. apply IH; auto; lia.
 Qed.
-Lemma parse_u64_fast_print n : 0 <= n < two64 -> parse_u64_fast (print_nat n) 0 = Some n.
+Lemma parse_u64_fast_print n : 0 <= n < two64 -> parse_u64_fast (print_nat n) = Some n.
 Proof.
   intros H. assert (H40 : 0 <= n < 10 ^ 40) by (unfold two64 in H; lia).
   destruct (print_nat_spec n H40) as [Hp Hd].
-  apply parse_u64_fast_digits; [lia | exact Hd | | lia].
-  unfold parse_digits in Hp. destruct (print_nat n); [discriminate | exact Hp].
+  destruct (print_nat_head n H40) as (c & r & Hc & _).
+  unfold parse_u64_fast. rewrite Hc in *.
+  apply parse_u64_go_digits; [lia | exact Hd | | lia].
+  unfold parse_digits in Hp. exact Hp.
 Qed.
 Lemma split_dash_digits l : forall r, Forall (fun c => is_digit c = true) l ->
   split_dash (l ++ 45 :: r) = Some (l, r).
@@ -610,33 +612,35 @@ Qed.
 
 Lemma api_xadd_fresh ds i d k id f :
   get_dbi ds i = Some d -> get_entry d k = None -> sid_leb id (0, 0) = false ->
-  api_xadd ds i k id f = set_dbi ds i (new_key d k (VStream {| s_entries := [(id, f)]; s_last := id; s_groups := [] |})).
+  api_xadd ds i k id f = set_dbi ds i (new_key d k (VStream (mkstream [(id, f)] id 1))).
 Proof. intros Hd Hk Hid. unfold api_xadd, api_xadd_r. now rewrite Hd, Hk, Hid. Qed.
-Lemma api_xadd_more ds i d0 d k done last id f :
+Lemma api_xadd_more ds i d0 d k done last n id f :
   get_dbi ds i = Some d0 -> sid_leb id last = false ->
-  api_xadd (set_dbi ds i (new_key d k (VStream {| s_entries := done; s_last := last; s_groups := [] |}))) i k id f
-  = set_dbi ds i (new_key d k (VStream {| s_entries := done ++ [(id, f)]; s_last := id; s_groups := [] |})).
+  api_xadd (set_dbi ds i (new_key d k (VStream (mkstream done last n)))) i k id f
+  = set_dbi ds i (new_key d k (VStream (mkstream (done ++ [(id, f)]) id (n + 1)))).
 Proof.
   intros Hd Hid. unfold api_xadd, api_xadd_r. rewrite (get_set_dbi _ _ _ _ Hd). unfold new_key, keep_exp.
-  rewrite get_put. cbn [e_val e_exp s_last s_entries s_groups]. rewrite Hid. now rewrite put_put, set_set_dbi.
+  rewrite get_put. unfold mkstream at 1. cbn [e_val e_exp s_last s_entries s_groups s_len]. rewrite Hid.
+  now rewrite put_put, set_set_dbi.
 Qed.
-Lemma xadd_all_more es : forall ds i d0 d k done last,
+Lemma xadd_all_more es : forall ds i d0 d k done last n,
   get_dbi ds i = Some d0 -> sids_ok last es = true ->
-  xadd_all (set_dbi ds i (new_key d k (VStream {| s_entries := done; s_last := last; s_groups := [] |}))) i k es
-  = set_dbi ds i (new_key d k (VStream {| s_entries := done ++ es; s_last := last_sid last es; s_groups := [] |})).
+  xadd_all (set_dbi ds i (new_key d k (VStream (mkstream done last n)))) i k es
+  = set_dbi ds i (new_key d k (VStream (mkstream (done ++ es) (last_sid last es) (n + len es)))).
 Proof.
-  induction es as [|[id f] es IH]; intros ds i d0 d k done last Hd Hs; cbn [xadd_all fold_left last_sid].
-  - now rewrite app_nil_r.
+  induction es as [|[id f] es IH]; intros ds i d0 d k done last n Hd Hs; cbn [xadd_all fold_left last_sid].
+  - rewrite app_nil_r, len_nil. now replace (n + 0) with n by lia.
   - cbn [sids_ok fst snd] in Hs. apply andb_prop in Hs. destruct Hs as [Hs Hr].
     apply andb_prop in Hs. destruct Hs as [Hs _]. apply andb_prop in Hs. destruct Hs as [Hs _].
     apply negb_true_iff in Hs. cbn [fst snd].
-    rewrite (api_xadd_more ds i d0 d k done last id f Hd Hs).
-    fold (xadd_all (set_dbi ds i (new_key d k (VStream {| s_entries := done ++ [(id, f)]; s_last := id; s_groups := [] |}))) i k es).
-    rewrite (IH ds i d0 d k (done ++ [(id, f)]) id Hd Hr). now rewrite <- app_assoc.
+    rewrite (api_xadd_more ds i d0 d k done last n id f Hd Hs).
+    fold (xadd_all (set_dbi ds i (new_key d k (VStream (mkstream (done ++ [(id, f)]) id (n + 1))))) i k es).
+    rewrite (IH ds i d0 d k (done ++ [(id, f)]) id (n + 1) Hd Hr). rewrite <- app_assoc. cbn [app].
+    rewrite len_cons. now replace (n + 1 + len es) with (n + (1 + len es)) by lia.
 Qed.
 Lemma xadd_all_fresh ds i d k es :
   get_dbi ds i = Some d -> get_entry d k = None -> es <> [] -> sids_ok (0, 0) es = true ->
-  xadd_all ds i k es = set_dbi ds i (new_key d k (VStream {| s_entries := es; s_last := last_sid (0, 0) es; s_groups := [] |})).
+  xadd_all ds i k es = set_dbi ds i (new_key d k (VStream (mkstream es (last_sid (0, 0) es) (len es)))).
 Proof.
   intros Hd Hk Hne Hs. destruct es as [|[id f] es]; [contradiction|].
   cbn [xadd_all fold_left fst snd last_sid].
@@ -644,8 +648,8 @@ Proof.
   apply andb_prop in Hs. destruct Hs as [Hs _]. apply andb_prop in Hs. destruct Hs as [Hs _].
   apply negb_true_iff in Hs.
   rewrite (api_xadd_fresh ds i d k id f Hd Hk Hs).
-  fold (xadd_all (set_dbi ds i (new_key d k (VStream {| s_entries := [(id, f)]; s_last := id; s_groups := [] |}))) i k es).
-  rewrite (xadd_all_more es ds i d d k [(id, f)] id Hd Hr). reflexivity.
+  fold (xadd_all (set_dbi ds i (new_key d k (VStream (mkstream [(id, f)] id 1)))) i k es).
+  rewrite (xadd_all_more es ds i d d k [(id, f)] id 1 Hd Hr). rewrite len_cons. reflexivity.
 Qed.
 
 (** ---- boolean guards to propositions ---- *)
